@@ -472,7 +472,8 @@ func compileRun(src string) *compiled {
 	}
 	c = compile(src)
 	runCacheMu.Lock()
-	if len(runCache) > 20000 {
+	if len(runCache) >= 300 {
+		// Bounded: wide division circuits are megabytes each.
 		runCache = map[string]*compiled{}
 	}
 	runCache[src] = c
